@@ -7,7 +7,7 @@ import re
 from sa import flow
 from sa.model import AnalysisError, dotted, names_in, unparse
 from sa.rules import LEVEL_TEXT, rule
-from sa.rules.util import bind_call, ctor_target, iter_body_nodes, own_methods, qual, reads_of_self
+from sa.rules.util import pmatch, bind_call, ctor_target, iter_body_nodes, own_methods, qual, reads_of_self
 
 LEVEL_TEXT["C10"] = (
     "Decides one necessary condition of C10: every lowering (_lower) that builds physical expressions forwards each "
@@ -574,7 +574,7 @@ def r10i(ctx):
 
 @rule(
     "R10j",
-    ["C10", "C02"],
+    ["C10", "C02", "C05"],
     """ORDER-DEPENDENT AGGREGATIONS GET AN ORDER-PRESERVING SHUFFLE: with split_out > 1 ShuffleReduce shuffles the chunk results and
     aggregates them per output partition; first / last / head / tail / keep='first' take "the first row of the concatenated chunks".
     (a) The shuffle ShuffleReduce._lower builds must take its method from `_get_shuffle_preferring_order(...)` (tasks over disk when
@@ -597,6 +597,19 @@ def r10j(ctx):
         else:
             ctx.bad(cid, sr.module.loc(call), f"the chunks are shuffled with method `{unparse(kw.value) if kw is not None else 'default'}`: without an explicit method that is the disk based shuffle, which returns the pieces of an output partition in task execution order - groupby first / last / head / tail with split_out > 1 (chosen automatically for multi-key group-bys on > 10 partitions) answer with the value of an arbitrary input partition")
     ctx.floor("shuffles built by ShuffleReduce._lower", n, 1)
+    # (c) the helper itself: only an EXPLICIT argument short-circuits; the configured / default method is mapped disk -> tasks
+    umod, ufn = model.func("_util", "_get_shuffle_preferring_order")
+    par = ufn.args.args[0].arg
+    udefs = flow.Defs(ufn)
+    rebinds = [st for st in ast.walk(ufn) if isinstance(st, ast.Assign) and any(isinstance(t, ast.Name) and t.id == par for t in st.targets)]
+    early = [p for p in flow.returns(ufn) if p.stmt.value is not None and ast.unparse(p.stmt.value) == par]
+    tainted = [p for p in early if any(d.value is not None for d in udefs.reaching(par, p.stmt)) and not any((not pol) and pmatch(f"{par} == 'disk'", t) is not None for t, pol in flow.facts(p))]
+    maps = any(isinstance(r, ast.Return) and isinstance(r.value, ast.Constant) and r.value.value == "tasks" for r in ast.walk(ufn)) and "'disk'" in ast.unparse(ufn)
+    cid = "_util._get_shuffle_preferring_order:explicit-argument-only"
+    if tainted or not maps:
+        ctx.bad(cid, umod.loc(tainted[0].stmt if tainted else ufn), "the short-circuit `return <method>` also fires for a method that was filled in from the configuration (the parameter is rebound before the test) or the disk -> tasks mapping is gone: with `dataframe.shuffle.method: disk` configured - the default without a cluster - order dependent reductions (drop_duplicates(keep=...), groupby first / last with split_out) get the disk shuffle, whose pieces arrive in task execution order")
+    else:
+        ctx.ok(cid, umod.loc(ufn), "only an explicit argument bypasses the disk -> tasks preference")
     # (b) shuffle implementations and input order
     ds = model.cls("DiskShuffle", "_shuffle")
     lay = model.method(ds, "_layer", own=True).node
